@@ -79,7 +79,8 @@ func (s *server) HandleRequest(ctx *types.HttpContext) {
 			if socket, ok := s.Clients().Load(sid); ok {
 				socket.Transport().OnRequest(ctx)
 			} else {
-				abortRequest(ctx, UNKNOWN_SID, map[string]any{"sid": sid})
+				// the session closed after Verify looked it up: still a rejected request
+				s.emitAbortRequest(ctx, UNKNOWN_SID, map[string]any{"sid": sid})
 			}
 		} else {
 			if codeMessage, t := s.Handshake(ctx.Query().Peek("transport"), ctx); t == nil {
